@@ -339,6 +339,38 @@ def _static(attr, arity):
     return f
 
 
+_PSTORE = {}
+
+
+def _fn_property(rng):
+    """Property built from plain functions of every supported arity (getter 0-3 arguments,
+    setter 0-3, validator 0-3): each arity has its own C entry point."""
+    g = rng.randrange(4)
+    st = rng.randrange(4)
+    vd = rng.choice([None, 0, 1, 2, 3])
+    getters = [lambda: (CH.act(None, None, "fget0"), _PSTORE.get("v", 0))[1],
+               lambda obj: (CH.act(obj, None, "fget1"), _PSTORE.get("v", 0))[1],
+               lambda obj, name: (CH.act(obj, name, "fget2"), _PSTORE.get("v", 0))[1],
+               lambda obj, name, trait: (CH.act(obj, name, "fget3"), _PSTORE.get("v", 0))[1]]
+    setters = [lambda: CH.act(None, None, "fset0"),
+               lambda value: (CH.act(None, None, "fset1"), _PSTORE.__setitem__("v", value))[1],
+               lambda obj, value: (CH.act(obj, None, "fset2"), _PSTORE.__setitem__("v", value))[1],
+               lambda obj, name, value: (CH.act(obj, name, "fset3"), _PSTORE.__setitem__("v", value))[1]]
+
+    def chk(value):
+        if isinstance(value, str) and value == "INVALID":
+            raise TraitError("invalid")
+        return value
+    validators = [lambda: (CH.act(None, None, "fval0"), 0)[1],
+                  lambda value: (CH.act(None, None, "fval1"), chk(value))[1],
+                  lambda obj, value: (CH.act(obj, None, "fval2"), chk(value))[1],
+                  lambda obj, name, value: (CH.act(obj, name, "fval3"), chk(value))[1]]
+    kw = {"fget": getters[g], "fset": setters[st]}
+    if vd is not None:
+        kw["fvalidate"] = validators[vd]
+    return Property(**kw)
+
+
 def trait_makers(rng, partner_cls):
     """name -> zero-arg constructor of a trait for a class body."""
     return [
@@ -404,6 +436,10 @@ def trait_makers(rng, partner_cls):
         ("IntNone", lambda: Int(comparison_mode=rng.choice([0, 1, 2]))),
         ("AnyIdentity", lambda: Any(comparison_mode=1)),
         ("Supports", lambda: Supports(partner_cls)),
+        ("InstanceInt", lambda: Instance(int)),
+        ("InstanceIntNN", lambda: Instance(int, allow_none=False)),
+        ("PropertyFn", lambda: _fn_property(rng)),
+        ("PropertyFn2", lambda: _fn_property(rng)),
         ("PropertyRW", "PROPERTY_RW"),
         ("PropertyInt", "PROPERTY_INT"),
         ("PropertyCached", "PROPERTY_CACHED"),
@@ -602,7 +638,10 @@ def _one_op(rng, op, o, nm, objs, handlers, Main, Partner, names):
                         lambda: t._get_property(), lambda: t.handler, lambda: t.__dict__,
                         lambda: t.clone(t), lambda: repr(t), lambda: t.comparison_mode,
                         lambda: t.default_kind, lambda: t.default, lambda: t.inner_traits,
-                        lambda: t.is_trait_type(Int), lambda: t.full_info(o, nm, 1)])()
+                        lambda: t.is_trait_type(Int), lambda: t.full_info(o, nm, 1),
+                        lambda: t.post_setattr, lambda: t.modify_delegate, lambda: t.is_mapped,
+                        lambda: t.post_setattr_original_value, lambda: t.setattr_original_value,
+                        lambda: t.type, lambda: t.editor, lambda: t.get_help()])()
     elif op == 16:
         v = getattr(o, nm)
         pool = VALUE_POOL
@@ -647,6 +686,7 @@ def _one_op(rng, op, o, nm, objs, handlers, Main, Partner, names):
                     lambda: o.has_traits_interface(), lambda: repr(o),
                     lambda: o._trait(nm, rng.choice([-2, -1, 0, 1, 2])),
                     lambda: o.traits_inited(), lambda: o._trait_notifications_enabled(),
+                    lambda: o._trait_notifications_vetoed(),
                     ])()
     elif op == 19:
         p = Partner()
